@@ -54,7 +54,7 @@ Definition cb_answer (m : list (string * string)) (r : rres) : option bool :=
                  end
   | RdReady n => match lookup "Ready(Ok)" m with
                  | Some v => if String.eqb v "Ok(true)" then Some true
-                             else if String.eqb v "Ok(n>0)" then Some (0 <? n)
+                             else if String.eqb v "Ok(n>0)" then Some (Nat.ltb 0 n)
                              else if String.eqb v "Ok(false)" then Some false else None
                  | None => None
                  end
@@ -190,7 +190,7 @@ Proof.
     (* the call that returns is the poll_signal call: its result is Signal, Closed or Pending *)
     destruct (csolo_reach raw c ls (S n)) as [l' E]. fold w in E.
     pose proof (InvR_reach raw c (ls ++ l')) as R. rewrite <- E in R.
-    assert (Hop' : cop (w_co (csolo (S n) w)) = OPoll) by (apply csolo_cop; auto).
+    assert (Hop' : cop (w_co (csolo (S n) w)) = OPoll) by (rewrite csolo_cop; exact Hop).
     destruct (R Hi Hop') as [Hx|[Hx|[s [v Hx]]]]; unfold adapter_poll_next; rewrite Hx in *.
     + congruence.
     + left. apply (g_closed _ _ G).
